@@ -767,6 +767,10 @@ func serveWs(closed <-chan struct{}, w http.ResponseWriter, r *http.Request, con
 			}
 
 			close(cancelled)
+			// writePump only sees cancelled between writes: while it is blocked writing to a
+			// reader that has stalled it would keep the connection (and readPump) alive for
+			// up to writeWait. Closing the socket here ends both pumps at once.
+			conn.Close()
 		}()
 
 		go client.writePump(closed, cancelled)
